@@ -262,5 +262,23 @@ def run(ctx):
                     ctx.violation({"op": op, "chunking": cname, "scheduler": sname},
                                   "%s on %s-chunked input (%s, workers=%s) differs from the in-memory result: %s" % (op, cname, sname, nw, d))
     broadcast_winds(ctx, dask)
+    # ---- many blocks of one dataset on many threads, for the methods that run Python code around the C call (ptm1: wave-age mask,
+    # wind-sea accumulation, ordering): every position must equal the in-memory partition of that spectrum
+    from harness.core import run_forked
+    from harness.props import c06
+    for workers in ((16,) if ctx.quick else (4, 16)):
+        nt = 96 if ctx.quick else 320
+        kind, val = run_forked(c06._blocks_on_threads, ctx.seed + workers, nt, 30, 36, workers, timeout=900)
+        ctx.case(("blocks-on-threads", nt, workers), True)
+        if kind == "crash":
+            ctx.violation({"stage": "blocks-on-threads", "kind": "crash", "workers": workers}, "the interpreter died while %d threads computed the blocks of one dataset (%s)" % (workers, val))
+            continue
+        bad, n = val
+        for name, k in bad.items():
+            if k:
+                ctx.violation({"stage": "blocks-on-threads", "op": name, "workers": workers},
+                              "%s of a dataset chunked along time, threaded scheduler with %d workers: %d of %d spectra differ from the in-memory result" % (name, workers, k, n))
+            else:
+                ctx.replayed(n)
     ctx.assume("events are written inside the C wrapper while the GIL is held; thread ids are renumbered before TLC sees them")
     ctx.assume("a data race needing true parallelism inside the C routine cannot occur while the GIL is held: the check establishes that it is held")
